@@ -8,6 +8,7 @@ NamesNext == \/ hist = <<>> /\ \E n \in NameSet : Open("a1", 1, n)
              \/ Len(hist) = 3 /\ Close("a1", 1)
              \/ Len(hist) = 4 /\ Write("a1", 1, "c1")
 NamesSpec == Init /\ [][NamesNext]_vars
-SvcNext == hist = <<>> /\ \E n \in NameSet, a \in Agents : ServiceFile(a, n, "c1")
+SvcNext == \/ hist = <<>> /\ \E n \in NameSet, a \in Agents : ServiceFile(a, n, "c1")
+           \/ hist = <<>> /\ \E a \in Agents, cls \in CraftedIds : CraftedFile(a, cls)
 SvcSpec == Init /\ [][SvcNext]_vars
 =============================================================================
